@@ -42,9 +42,20 @@ def resolve (fs : Fs) : Nat → List String → List String → Out (List String
 
 def fuel0 : Nat := 400
 
+/-- the lexical cleaning would climb above the model's root (`/a/../../x`): what lies there is outside the model -/
+def climbsOut (path : String) : Bool :=
+  let rec go : List String → Nat → Bool
+    | [], _ => false
+    | s :: ss, d =>
+      if s = "" ∨ s = "." then go ss d
+      else if s = ".." then (match d with | 0 => true | d + 1 => go ss d)
+      else go ss (d + 1)
+  go (segments path) 0
+
 /-- `fsOnDisk.CleanedAbs` of an absolute path: lexical cleaning first, then physical resolution; a directory comes
     back as (dir, ""), a file as (its directory, its name) -/
 def cleanedAbs (fs : Fs) (path : String) : Out (List String × String) :=
+  if climbsOut path then .err "unmodelled" else
   match resolve fs fuel0 [] (compsOf (clean path)) with
   | .ok q =>
     (match lookup fs q with
